@@ -559,7 +559,8 @@ func TestVerifC12Wire(t *testing.T) {
 			exps = append(exps, verifkit.Pick(rng, all))
 		}
 		for i, e := range exps {
-			name := fmt.Sprintf("Wire/%s/%d", tr.name, i)
+			// test-case names are free text: percent signs, format verbs, colons
+			name := fmt.Sprintf("Wire/%s/%d", tr.name, i) + []string{"", " 100%", " %d %s %v", " a: b", " %", "%%/x", " %!s(MISSING)"}[i%7]
 			hreq, _ := http.NewRequest("POST", base+"/connectrpc.conformance.v1.ConformanceService/Unary", bytes.NewReader(body))
 			hreq.Header.Set("Content-Type", "application/proto")
 			hreq.Header.Set("X-Test-Case-Name", name)
